@@ -9,11 +9,11 @@ import (
 
 func init() {
 	register("C15", "Decides structural necessary conditions of 'configuration validation is total and the instance matches its configuration': "+
-		"(R2) for every rule of the statement there is a rejecting path: under each cause, written as a conjunction of branch-condition values over the configuration fields (log id 0; mirror without public key / with private key; log without private key; unparsable keys; frozen STH without public key, malformed, or not verifying under the configured public key; reject-expired ∧ reject-unexpired; unknown EKU name; invalid start/limit timestamp; limit < start decided on the time.Time values themselves; negative or mis-ordered merge delays on every sample ordering of (max, expected, 0); CTFE storage selected with empty / unparsable / unsupported connection string, or with a mysql connection string that lacks the scheme separator \"://\" — decided by valuating every branch condition whose outcome the separator's absence fixes, however the presence test is written; empty or duplicate prefix; duplicate tree id; empty or duplicate backend name / spec; undefined backend; duplicate (backend, id)) no success return of the validator is reachable, and moving the decisive atom of the cause to a good value makes success reachable again; every duplicate test asks a set made in the validator itself, is passed on every turn of the element loop, identifies an element by exactly what the statement says (a single log server: the tree id alone; a multi-backend set: backend name and tree id of the same element; the prefix; the backend name; the backend spec — fields of a struct key count when filled on every path to the test, under the facts that the nil constant is nil and a fresh map is non-nil), records the very key it tests in the very set it tests on every turn and on the not-seen edge only, and a formatted key is an injective encoding; both file loaders reject input that parses neither as text nor as binary protobuf and return the parsed message; "+
+		"(R2) for every rule of the statement there is a rejecting path: under each cause, written as a conjunction of branch-condition values over the configuration fields (log id 0; mirror without public key / with private key; log without private key; unparsable keys; frozen STH without public key, malformed, or not verifying under the configured public key; reject-expired ∧ reject-unexpired; unknown EKU name; invalid start/limit timestamp; limit < start decided on the time.Time values themselves; negative or mis-ordered merge delays on every sample ordering of (max, expected, 0); CTFE storage selected with an empty connection string, or — decided on sample strings, by valuating every branch condition whose outcome the concrete string fixes (a small evaluator of string code: constants, operators, len / index / slice, the pure functions of package strings, φ-nodes through the conditions the string decides, module helpers through their bodies), however the tests are written — one for an unsupported driver, a mysql one that lacks the scheme separator \"://\", one whose data source the driver's parser rejects; and a sample string can be accepted exactly when storage.NewIssuanceChainStorage and the functions it hands the string to can get as far as sql.Open with it (a driver name that is only the beginning of the scheme, a second separator, a key/value string without scheme are refused by the storage opener, so they must be refused here); every name of the EKU list is asked: each turn of the loop passes the name-table test and the loop is left towards acceptance only when the list is exhausted (the same for every element loop of the set validators); empty or duplicate prefix, where a prefix is empty exactly when (*logInfo).Handlers serves it under the paths of the empty string and two prefixes are the same exactly when Handlers serves them under the same paths (sample prefixes with and without leading / trailing slashes, evaluated through both functions); duplicate tree id; empty or duplicate backend name / spec; undefined backend; duplicate (backend, id)) no success return of the validator is reachable, and moving the decisive atom of the cause to a good value makes success reachable again; every duplicate test asks a set made in the validator itself, is passed on every turn of the element loop, identifies an element by exactly what the statement says (a single log server: the tree id alone; a multi-backend set: backend name and tree id of the same element; the prefix; the backend name; the backend spec — fields of a struct key count when filled on every path to the test, under the facts that the nil constant is nil and a fresh map is non-nil), records the very key it tests in the very set it tests on every turn and on the not-seen edge only, and a formatted key is an injective encoding; both file loaders reject input that parses neither as text nor as binary protobuf and return the parsed message; "+
 		"(R3) Handlers() removes exactly the add-chain and add-pre-chain entries, exactly when IsReadonly ∨ IsMirror; addChain/addPreChain are bound to a path nowhere else; Instance.Handlers is written only by SetUpInstance from logInfo.Handlers(prefix); "+
 		"(R4) newLogInfo selects FrozenSTHGetter{sth: validated frozen STH} whenever a frozen STH is configured (before the mirror case), MirrorSTHGetter for mirrors, LogSTHGetter otherwise; sthGetter / FrozenSTHGetter.sth / Instance.STHGetter have no other writer; FrozenSTHGetter.GetSTH returns exactly the stored STH; MirrorSTHGetter.GetSTH bounds the storage query by the backend root's tree size and gates both errors; setUpLogInfo rejects a non-mirror without roots and any public key that is of an unknown kind or differs from the signer's; "+
 		"(R5) the validation options and storage parameters of the instance are the validated configuration's fields (field-by-field provenance). "+
-		"(R1) no unguarded use of an optional configuration part, no unguarded constant index on a library call's result, and every configuration string handed to a storage driver's parser is derived from its field by steps that cannot panic; NOT covered: that MirrorSTHStorage implementations honour maxTreeSize, totality/strictness of mysql.ParseDSN, pgconn.ParseConfig, protobuf parsing and key parsing, acceptance of every well-formed configuration beyond may-reachability of the success return, flag handling in the ct_server binary.",
+		"(R1) no unguarded use of an optional configuration part, no unguarded constant index on a library call's result, and every configuration string handed to a storage driver's parser is derived from its field by steps that cannot panic; NOT covered: that MirrorSTHStorage implementations honour maxTreeSize, totality/strictness of mysql.ParseDSN, pgconn.ParseConfig, protobuf parsing and key parsing, acceptance of every well-formed configuration beyond may-reachability of the success return, connection strings and prefixes other than the sample families (the clauses are decided for the listed samples, not for all strings), whether a database answers at the address a connection string names, flag handling in the ct_server binary.",
 		runC15)
 }
 
@@ -79,9 +79,6 @@ func c15ValidateLogConfig(r *Run) {
 		r.Fail("const:ISSUANCE_CHAIN_STORAGE_BACKEND_CTFE", "-", "constant not found")
 	}
 	ctfe := sgOrd("p0.ExtraDataIssuanceChainStorageBackend || *GetExtraDataIssuanceChainStorageBackend(p0)", ctfeBackend, "=")
-	conn := "*CtfeStorageConnectionString*"
-	isMysql := func(v string) SgAtom { return sgBool("strings.HasPrefix("+conn+"\"mysql\")", v) }
-	isPg := func(v string) SgAtom { return sgBool("strings.HasPrefix("+conn+"\"postgres\")", v) }
 
 	causes := []struct {
 		name string
@@ -101,22 +98,22 @@ func c15ValidateLogConfig(r *Run) {
 		{"frozen-sth-malformed", []SgAtom{frozen("non"), sgNil("(*ct.GetSTHResponse).ToSignedTreeHead(*)#1", "non")}},
 		{"frozen-sth-signature-invalid", []SgAtom{frozen("non"), sgNil("(ct.SignatureVerifier).VerifySTHSignature(*)", "non")}},
 		{"ctfe-storage-without-connection-string", []SgAtom{ctfe, c15Empty("*CtfeStorageConnectionString || *GetCtfeStorageConnectionString(p0)")}},
-		{"ctfe-storage-mysql-dsn-unparsable", []SgAtom{ctfe, isMysql("T"), sgNil("*mysql.ParseDSN(*)#1", "non")}},
-		{"ctfe-storage-postgres-unparsable", []SgAtom{ctfe, isMysql("F"), isPg("T"), sgNil("pgconn.ParseConfig(*)#1", "non")}},
-		{"ctfe-storage-unsupported-driver", []SgAtom{ctfe, isMysql("F"), isPg("F")}},
 	}
 	for _, c := range causes {
 		r.SgRejects(fn, k+c.name, c.c...)
 	}
-	// the statement's own example: a connection string without a scheme separator (rules_t6c1518.go)
-	c15SchemeSeparator(r, fn, k+"ctfe-storage-mysql-without-scheme-separator", ctfe, isMysql("T"))
+	// what a connection string must look like (unsupported driver, the statement's own example of a string without a
+	// scheme separator, a data source the driver's parser rejects, and: accepted exactly when the storage opener can
+	// get to the database driver with it) is decided on sample strings, whichever predicate the validator tests
+	// them with (rules_t7c15cfg.go); these are 4 of the causes counted below, plus the two directions of "openable"
+	c15ConnStrings(r, fn, k, ctfe, ctfeBackend)
 	// limit before start: both bounds configured and valid (the invalid ones are the two causes above), the
 	// validated limit instant before the validated start instant.  The presence of a bound may be re-tested on
 	// the validated pointer instead of the configuration field: the walk follows it there (WalkRefined).
 	vStart, vLimit := c15ValidatedInstant(r, fn, "NotAfterStart"), c15ValidatedInstant(r, fn, "NotAfterLimit")
 	valid := func(f string) SgAtom { return sgNil("(*timestamppb.Timestamp).CheckValid(*"+f+"*)", "nil") }
 	c15RejectsRefined(r, fn, k+"limit-before-start", start("non"), limit("non"), valid("NotAfterStart"), valid("NotAfterLimit"), sgOrd(vLimit, vStart, "<"))
-	r.Floor("rejection causes of ValidateLogConfig", len(causes)+2, 19)
+	r.Floor("rejection causes of ValidateLogConfig", len(causes)+4+1, 19)
 
 	succ := sgOkReturns(fn)
 	// merge delays: exact on sample orderings of (max, expected, 0)
@@ -148,6 +145,9 @@ func c15ValidateLogConfig(r *Run) {
 	}
 	// unknown EKU (loop body) and the name table itself
 	r.SgRejectsInLoop(fn, k+"unknown-eku-name", sgBool("g:trillian/ctfe.stringToKeyUsage[*ExtKeyUsages*]#1", "F"))
+	// … and every name of the list is asked: each turn passes the test, and the loop is left towards acceptance only
+	// when the list is exhausted (rules_t7c15cfg.go)
+	c15EveryEKUName(r, fn, k)
 	c15EKUTable(r)
 
 	// the frozen STH is verified under the configured public key, field by field
@@ -221,14 +221,16 @@ func c15Sets(r *Run) {
 		facts := c15Facts(r, fn, "validateConfigs")
 		tests := c15SeenTests(r, fn, facts)
 		r.SgRejectsInLoop(fn, "validateConfigs:invalid-log-config", sgNil("trillian/ctfe.ValidateLogConfig(*)#1", "non"))
-		r.SgRejectsInLoop(fn, "validateConfigs:empty-prefix", c15Empty("*Prefix"))
 		t := c15DupClause(r, fn, tests, facts, "validateConfigs:duplicate-prefix", "validateConfigs:prefix-recorded", "*Prefix*")
-		// the element validated is the element whose prefix is tested
+		// the element validated is the element whose prefix is tested; an empty prefix is rejected; and what "empty"
+		// and "the same prefix" mean is what (*logInfo).Handlers makes of a prefix — decided on sample prefixes
+		// (validateConfigs:empty-prefix, :empty-prefix:as-served, :duplicate-prefix:as-served, :same-element;
+		// rules_t7c15cfg.go)
 		if c := r.OneCall(fn, "validateConfigs:ValidateLogConfig", c15cfg+"ValidateLogConfig"); c != nil && t != nil {
-			el := r.D.D(CallArgs(c)[0])
-			r.Check("validateConfigs:same-element", glob("p0[*]", el) && len(t.view.comps) == 1 && strings.HasPrefix(t.view.comps[0], el), r.Where(c),
-				fmt.Sprintf("ValidateLogConfig(%s); prefix tested: %s", el, t.view))
+			c15PrefixIdentity(r, fn, t, facts, r.D.D(CallArgs(c)[0]))
 			c15Injective(r, "validateConfigs:prefix-key-injective", t, "the prefix")
+		} else {
+			r.Fail("validateConfigs:empty-prefix", r.FnPos(fn), "undecided: no duplicate test on the prefix / no call of ValidateLogConfig to take the element from")
 		}
 	}
 	if fn := r.Fn(c15cfg + "ValidateLogConfigs"); fn != nil {
@@ -289,6 +291,7 @@ func c15Sets(r *Run) {
 				} else {
 					r.Fail(k+":undefined-backend:every-element", where, fmt.Sprintf("the backend membership test is not in a loop, cannot execute, or a turn of the element loop can get round it (paths under the facts %s): logs go unasked", facts))
 				}
+				c15ExhaustsList(r, fn, k+":undefined-backend:to-the-end", h, facts, "the logs whether their backend is defined", nil)
 			}
 		}
 		if c := r.OneCall(fn, k+":BuildLogBackendMap", c15cfg+"BuildLogBackendMap"); c != nil {
